@@ -38,7 +38,7 @@ META = {
     },
 }
 CASES = {'quick': 1200, 'thorough': 60000}
-SECONDS = {'quick': 60, 'thorough': 600}
+SECONDS = {'quick': 300, 'thorough': 600}
 
 
 def typed_nodes(g):
